@@ -41,6 +41,7 @@ static Plan gen_c06(uint64_t seed, int64_t index, bool thorough)
         else if (k < 70) { op.raw = sample_regex(*re, rng, 4); add_byte_faults(op, rng, rng.range(1, 3), nullptr); mode = "regex_faulty"; }
         else if (k < 80) { op.raw = ""; mode = "regex_empty"; }
         else { op.raw = byte_soup(rng, nullptr, rng.range(1, 40)); mode = "regex_soup"; }
+        if (rng.chance(1, 12)) { op.api = API_MATCHER_DEBUG; op.raw.clear(); op.faults.clear(); op.stream = rng.chance(1, 2) ? STR_SIM : STR_OSS; mode = "regex_debug_parse"; }
         return single_op_plan("C06", seed, index, mode, op);
     }
     std::string key = rng.pick(pk);
@@ -168,7 +169,7 @@ static std::vector<Violation> case_c06(const Plan& p, CaseCtx& cx)
     if (o.rec.oob_view) vs.push_back(make_violation("C06", "oob_view", "get_view outside the buffer; " + brief, p));
     if (o.rec.bounds_bad) vs.push_back(make_violation("C06", "stack_bounds", "a fixed-capacity stack was overrun or underrun (cvector invariant); " + brief, p));
     if (o.out.exc == 2 || o.rec.budget_hit) vs.push_back(make_violation("C06", "no_termination", "step/read budget exhausted; " + brief, p));
-    else if (o.model && o.op.api != API_MATCH)
+    else if (o.model && o.op.api != API_MATCH && o.op.api != API_MATCHER_DEBUG)
     {
         ref::RefResult r = ref_for(o);
         int64_t bound = 64 + 16 * r.steps;
